@@ -166,8 +166,10 @@ impl FormMultipartData {
             let escaped_dash_boundary = boundary.replace(SYMBOL.hyphen, SYMBOL.empty_string);
 
             current_string_is_boundary = false;
-            if b.len() >= escaped_dash_boundary.len() {
-                let boxed_sequence = FormMultipartData::find_subsequence(b, escaped_dash_boundary.as_bytes());
+            // hyphens are ignored on both sides, same as for the opening boundary (boundary may contain hyphens itself)
+            let escaped_dash_line : Vec<u8> = b.iter().filter(|byte| **byte != b'-').copied().collect();
+            if escaped_dash_line.len() >= escaped_dash_boundary.len() {
+                let boxed_sequence = FormMultipartData::find_subsequence(&escaped_dash_line, escaped_dash_boundary.as_bytes());
                 if boxed_sequence.is_some() {
                     current_string_is_boundary = true;
                     _boundary_position = boxed_sequence.unwrap();
